@@ -2087,6 +2087,10 @@ func (s *ImmuStore) performPrecommit(tx *Tx, entries []*EntrySpec, ts int64, blT
 
 	err = s.cLogBuf.put(s.inmemPrecommittedTxID+1, alh, txOff, txSize)
 	if err != nil {
+		// the leaf appended above does not belong to a precommitted transaction: take it back,
+		// otherwise aht.Size() stays ahead of inmemPrecommittedTxID and every later commit
+		// fails with ErrUnexpectedLinkingError until the store is reopened
+		s.aht.ResetSize(s.inmemPrecommittedTxID)
 		return err
 	}
 
